@@ -202,7 +202,7 @@ def handle (toks : List String) : String :=
   | ["read", mode, sizes, _pg, _idx, chosen, sel, pol, _preds, pmasks, off, lim, bs, _proj] =>
     match parseList String.toNat? sizes, parseList String.toNat? chosen,
           (if sel = "-" then some none else (parseOperand sel).map some),
-          parsePolicy pol, (if pmasks = "-" then some [] else (pmasks.splitOn ";").mapM parseBits),
+          parsePolicy pol, (if pmasks = "-" then some [] else (pmasks.splitOn ";").mapM (fun m => if m = "e" then some [] else parseBits m)),
           parseOptNat off, parseOptNat lim, bs.toNat? with
     | some sizes, some chosen, some sel, some pol, some pmasks, some off, some lim, some bs =>
       if mode = "sync" ∨ mode = "push" then handleRead mode sizes chosen sel pol pmasks off lim bs
